@@ -31,10 +31,10 @@ pub fn std_sort_by_scan_key(v: &mut Vec<u64>)
         old(v)@.no_duplicates() ==> final(v)@.no_duplicates(),
 { v.sort_unstable_by_key(|&cell| scan_key(cell)) }
 
-//@extract fn scan_key from src/core/compact.rs ret=r tags=C10,C14
+//@extract fn scan_key from src/core/compact.rs ret=r tags=C08,C10,C14
 //@spec
 ensures
-    r.0 == key_of(cell), r.1 == cell,                                              // [C10:scan_key.value]
+    r.0 == key_of(cell), r.1 == cell,                                              // [C08,C10:scan_key.value]
 //@at entry
 proof {
     assert((cell >> 58) < 64) by (bit_vector);
